@@ -483,10 +483,74 @@ func (e *Engine) safeEval(x *Exec, env *SpecEnv, ex Expr) (t Term, err error) {
 }
 
 // BuildQuery assembles the SMT-LIB text of one obligation.
+var sliceStop = map[string]bool{"assert": true, "forall": true, "exists": true, "and": true, "or": true, "not": true, "ite": true, "select": true, "store": true,
+	"to_real": true, "to_int": true, "div": true, "mod": true, "let": true, "as": true, "const": true, "Array": true, "Int": true, "Real": true, "Bool": true,
+	"true": true, "false": true, "pattern": true, "named": true, "tdiv": true, "tmod": true, "FS": true, "FZ": true, "Fuel": true, "distinct": true,
+	"s-ref": true, "s-off": true, "s-len": true, "s-cap": true, "mk-slice": true, "slice-ok": true, "Slice": true, "alloc0": true}
+
+// sliceHyps keeps the hypotheses connected to the goal through shared symbols within `depth` steps.
+// Dropping hypotheses is sound for a validity proof (it can only make the query harder to refute).
+func sliceHyps(o *Obligation, depth int) []int {
+	syms := map[string]bool{}
+	for t := range tokenSet(o.Goal.S) {
+		if !sliceStop[t] {
+			syms[t] = true
+		}
+	}
+	htoks := make([]map[string]bool, len(o.Hyps))
+	for i, h := range o.Hyps {
+		htoks[i] = tokenSet(h.T.S)
+	}
+	keep := map[int]bool{}
+	for d := 0; d < depth; d++ {
+		add := map[string]bool{}
+		for i := range o.Hyps {
+			if keep[i] {
+				continue
+			}
+			for t := range htoks[i] {
+				if syms[t] {
+					keep[i] = true
+					break
+				}
+			}
+			if keep[i] {
+				for t := range htoks[i] {
+					if !sliceStop[t] {
+						add[t] = true
+					}
+				}
+			}
+		}
+		for t := range add {
+			syms[t] = true
+		}
+	}
+	var out []int
+	for i := range o.Hyps {
+		if keep[i] {
+			out = append(out, i)
+		}
+	}
+	return out
+}
+
 func (e *Engine) BuildQuery(o *Obligation, withModel bool) (string, error) {
+	return e.BuildQuerySliced(o, nil)
+}
+
+// BuildQuerySliced: only the hypotheses with the given indexes (nil = all).
+func (e *Engine) BuildQuerySliced(o *Obligation, only []int) (string, error) {
 	e.curFuel = o.Fuel
 	var body strings.Builder
+	sel := map[int]bool{}
+	for _, i := range only {
+		sel[i] = true
+	}
 	for i, h := range o.Hyps {
+		if only != nil && !sel[i] {
+			continue
+		}
 		fmt.Fprintf(&body, "(assert (! %s :named h%d))\n", h.T.S, i)
 	}
 	fmt.Fprintf(&body, "(assert (not %s))\n", o.Goal.S)
